@@ -2480,6 +2480,17 @@ func unmarshalUDT(info TypeInfo, data []byte, value interface{}) error {
 	udt := info.(UDTTypeInfo)
 	for id, e := range udt.Elements {
 		if len(data) == 0 {
+			// the value was written before the remaining fields were added
+			// to the type: they are null, also in a struct that is reused
+			for _, e := range udt.Elements[id:] {
+				f, ok := fields[e.Name]
+				if !ok {
+					f = k.FieldByName(e.Name)
+				}
+				if f.IsValid() && f.CanSet() {
+					f.Set(reflect.Zero(f.Type()))
+				}
+			}
 			return nil
 		}
 		if len(data) < 4 {
